@@ -12,6 +12,8 @@ using namespace vf;
 
 static Fields gen(Tape &t) {
   Fields f;
+  LongMode lm(t);
+  if (lm.on()) f.seti("long", 1);
   GenUri S, B;
   int k = 0;
   g_source_base(t, &S, &B, &k);
